@@ -143,12 +143,26 @@ class Interp(CallMixin):
             res.append(n)
             if n in LARK_EXC:
                 work.extend(LARK_EXC[n])
+            elif n in ("attrs.exceptions.FrozenInstanceError", "attr.exceptions.FrozenInstanceError", "dataclasses.FrozenInstanceError"):
+                work.append("builtins.AttributeError")
             elif n in self.ext_bases:
                 work.extend(self.ext_bases[n])
             elif n.startswith("builtins.") and hasattr(builtins, n[9:]) and isinstance(getattr(builtins, n[9:]), type):
                 for b in getattr(builtins, n[9:]).__mro__[1:]:
                     work.append(f"builtins.{b.__name__}")
         return res
+
+    def is_frozen(self, cls_name: str) -> bool:
+        """attrs / dataclass classes declared frozen: attribute assignment raises FrozenInstanceError (an AttributeError)."""
+        for cn in self.model.mro(cls_name):
+            c = self.model.classes.get(cn)
+            if c is None:
+                continue
+            for d in c.node.decorator_list:
+                text = norm(d, 300)
+                if ("frozen=True" in text and ("define" in text or "attr" in text or "dataclass" in text)) or text.split("(")[0].split(".")[-1] == "frozen":
+                    return True
+        return False
 
     def is_subclass(self, name: str, base: str) -> bool:
         return base in self.class_mro(name)
@@ -414,7 +428,24 @@ class Interp(CallMixin):
         if isinstance(st, ast.AugAssign):
             load = ast.copy_location(self._as_load(st.target), st)
             cur = self.eval(load, frame)
-            val = self.binop(st.op, cur, self.eval(st.value, frame), st, frame)
+            rhs = self.eval(st.value, frame)
+            inplace = {ast.Add: "__iadd__", ast.Sub: "__isub__", ast.BitOr: "__ior__", ast.BitAnd: "__iand__", ast.BitXor: "__ixor__", ast.Mult: "__imul__"}.get(type(st.op))
+            val: Any = KeyError
+            if isinstance(cur, (Obj, EnumVal)) and cur.cls in self.model.classes and inplace:
+                m_ = self.model.find_method(self.model.classes[cur.cls], inplace)
+                if m_ is not None:  # the in-place dunder wins over __add__ ...
+                    val = self.call(FuncVal(fn=m_, self_obj=cur, module=m_.module), [rhs], {}, st, frame)
+            elif isinstance(cur, list) and isinstance(st.op, ast.Add):
+                cur.extend(self.iterate(rhs, st, frame))  # list += iterable mutates the list object (aliases see it)
+                val = cur
+            elif isinstance(cur, dict) and isinstance(st.op, ast.BitOr) and isinstance(rhs, dict):
+                cur.update(rhs)
+                val = cur
+            elif isinstance(cur, set) and isinstance(rhs, (set, frozenset)) and isinstance(st.op, (ast.BitOr, ast.BitAnd, ast.Sub, ast.BitXor)):
+                {ast.BitOr: cur.update, ast.BitAnd: cur.intersection_update, ast.Sub: cur.difference_update, ast.BitXor: cur.symmetric_difference_update}[type(st.op)](rhs)
+                val = cur
+            if val is KeyError:
+                val = self.binop(st.op, cur, rhs, st, frame)
             self.assign(st.target, val, frame)
             return
         if isinstance(st, ast.Return):
@@ -692,6 +723,8 @@ class Interp(CallMixin):
         elif isinstance(target, ast.Attribute):
             obj = self.eval(target.value, frame)
             if isinstance(obj, Obj):
+                if obj.cls in self.model.classes and self.is_frozen(obj.cls):
+                    raise PyRaise(Obj("attrs.exceptions.FrozenInstanceError", {"args": ("can't set attribute",)}))
                 obj.fields[target.attr] = val
             elif isinstance(obj, Opaque):
                 self.effects.append(("setattr-opaque", (obj.label, target.attr, val)))
@@ -981,6 +1014,8 @@ class Interp(CallMixin):
             stp = self.eval(e.slice.step, frame) if e.slice.step else None
             if isinstance(cont, (list, tuple, str)):
                 return cont[lo:hi:stp]
+            if isinstance(cont, StrT):
+                return StrT((Opaque(f"{cont!r}[{lo}:{hi}]"),))  # some part of a text that is not known literally
             self.unsupported(e, frame, "slice")
         idx = self.eval(e.slice, frame)
         if isinstance(cont, (list, tuple, str)):
